@@ -163,6 +163,19 @@ def _extra():
     return E
 
 
+def _variants():
+    """further documented shapes of classes that already have a fixture: (variant name, class path, stanza builder)"""
+    V = []
+    V.append(("protocol_receipts:receipt_incoming.IncomingReceiptProtocolEntity#list", "protocol_receipts:receipt_incoming.IncomingReceiptProtocolEntity",
+              lambda: N("receipt", {"from": J1, "t": "1432833777", "type": "read", "id": "1415389947-12"},
+                        [N("list", {}, [N("item", {"id": "1415389947-13"}), N("item", {"id": "1415389947-14"})])])))
+    V.append(("protocol_receipts:receipt_incoming.IncomingReceiptProtocolEntity#group", "protocol_receipts:receipt_incoming.IncomingReceiptProtocolEntity",
+              lambda: N("receipt", {"from": G1, "participant": J2, "t": "1432833777", "id": "1415389947-12", "offline": "1"})))
+    V.append(("protocol_groups:iq_groups_list_result.ListGroupsResultIqProtocolEntity#two", "protocol_groups:iq_result_groups_list.ListGroupsResultIqProtocolEntity",
+              None))
+    return [v for v in V if v[2] is not None]
+
+
 def all_fixtures():
     """class path -> (class, base node, source)"""
     classes = entity_classes()
@@ -176,4 +189,10 @@ def all_fixtures():
                 out[name] = (classes[name], fn(), "extra")
             except Exception:
                 pass
-    return out, sorted(set(classes) - set(out))
+    for vname, cname, fn in _variants():
+        if cname in classes:
+            try:
+                out[vname] = (classes[cname], fn(), "extra")
+            except Exception:
+                pass
+    return out, sorted(set(classes) - set(n.split("#")[0] for n in out))
